@@ -1248,6 +1248,70 @@ neg("sp-cg-early-exit-inverted", "C08",
             if i != 1 {
                 p = z.clone();""")])
 
+neg("vec-dot-zip-without-guard", "C15",
+    "Vector::dot as `for (a, b) in self.vec.iter().zip(w.vec.iter())` with the size guard REMOVED",
+    "vectors of different lengths no longer panic: the product over the common prefix is returned",
+    [(V_FUN, """        if self.size() != w.size() { panic!( "Vector sizes do not agree dot()." ); }
+        let mut result: T = T::zero();
+        for i in 0..self.size() {
+            result += self.vec[i] * w.vec[i];
+        }
+        result""", """        let mut result: T = T::zero();
+        for ( a, b ) in self.vec.iter().zip( w.vec.iter() ) {
+            result += *a * *b;
+        }
+        result""")])
+neg("vec-norm_1-iter-wrong-element", "C15",
+    "Vector::norm_1 as `for _x in self.vec.iter()` whose body reads `self.vec[0]` instead of the element",
+    "sums |v[0]| n times (and panics on the empty vector)",
+    [(V_FUN, """        let mut result = T::zero();
+        for i in 0..self.size() {
+            result += self.vec[i].abs();
+        }
+        result""", """        let mut result = T::zero();
+        for _x in self.vec.iter() {
+            result += self.vec[0].abs();
+        }
+        result""")])
+
+# iterator idioms (the rewrites clippy's needless_range_loop suggests), written together with C9
+add("held3-vec-norm_1-iter", "C15",
+    "Vector::norm_1: `for i in 0..self.size() { .. self.vec[i] .. }` -> `for x in self.vec.iter() { .. x .. }`",
+    "the iterator yields the elements in index order",
+    [(V_FUN, """        let mut result = T::zero();
+        for i in 0..self.size() {
+            result += self.vec[i].abs();
+        }
+        result""", """        let mut result = T::zero();
+        for x in self.vec.iter() {
+            result += x.abs();
+        }
+        result""")])
+add("held3-vec-assign-iter_mut", "C15",
+    "Vector::assign: index loop -> `for slot in self.vec.iter_mut() { *slot = elem; }`",
+    "every slot is overwritten once, front to back",
+    [(V_FUN, """        for i in 0..self.size() {
+            self.vec[i] = elem;
+        }""", """        for slot in self.vec.iter_mut() {
+            *slot = elem;
+        }""")])
+add("held3-vec-dot-enumerate", "C15 C16",
+    "Vector::dot: `for i in 0..self.size()` -> `for (i, a) in self.vec.iter().enumerate() { result += *a * w.vec[i]; }`",
+    "same products in the same order (w.vec[i] is in range: the sizes agree)",
+    [(V_FUN, """        for i in 0..self.size() {
+            result += self.vec[i] * w.vec[i];
+        }
+        result
+    }
+
+    /// Return the sum of all""", """        for ( i, a ) in self.vec.iter().enumerate() {
+            result += *a * w.vec[i];
+        }
+        result
+    }
+
+    /// Return the sum of all""")])
+
 def sh(cmd, cwd):
     return subprocess.run(cmd, cwd=cwd, shell=True, stdout=subprocess.PIPE, stderr=subprocess.STDOUT, text=True)
 
